@@ -34,7 +34,13 @@ func init() {
 		func() engine.Module { return mtmod.New() },
 		func() engine.Module { return recordmod.New() },
 		func() engine.Module { return tokenmod.New() },
-		func() engine.Module { return servicemod.New() },
+		func() engine.Module {
+			s := servicemod.New()
+			// the `random` service (defined at genesis by the random workload) is bound by the
+			// service workload's providers, as in the random profile
+			s.AddService(randommod.ServiceName, true)
+			return s
+		},
 		func() engine.Module { return oraclefeed.New() },
 		func() engine.Module { return randommod.New() },
 	)
